@@ -27,6 +27,9 @@ UmGen/HostileCfg.lean (namespace Um.Gen.Hostile):
     whole key (`memchr(b'}', key)`) and slices `key.get(begin + 1..end).expect(..)`;
   * `configSetFields` — the arms of `ServerProxyConfig::set_value`: (field, "i64" | "u64" | "readonly"), in source order;
   * `rateLimiterClamped` — `SlowLogRateLimiter::check_current_enabled` clamps the rate with `max(1, rate)` before `%`;
+  * `slotMapBounded` — `SlotMapData::new` (local and peer slot tables) skips `start > end` and leaves its fill loop at
+    `s >= SLOT_NUM`; together with the pinned shape of `NodeMap::parse_tagged_slot_range` (no validation that only the
+    textual SETCLUSTER form would pass: the compressed form is deserialised by serde and never sees that parser);
   * `overflowChecks` — `[profile.release] overflow-checks` of /repo/Cargo.toml (absent ⇒ `false`:
     `3 + key_num` wraps);
   * constants: `CLUSTER_NAME_MAX_LENGTH`, `MAX_ELEMENT_LENGTH`, `LOG_ELEMENT_NUMBER`,
@@ -209,6 +212,21 @@ def gen_hostilecfg():
                                f"(a capacity taken from a client-declared count must not be reserved before the items are read)")
     out.append("/-- no UMCTL parser reserves memory proportional to a client-declared count (pinned shapes) -/")
     out.append("def umctlCountPrealloc : Bool := false")
+    # --- SlotMapData::new and the textual-only parser ---------------------------------------------------------------
+    p = "src/proxy/slot.rs"
+    sm = _sq(fn_body(src(p), "new", p))
+    if "for (addr, slots) in slot_map.into_iter()" not in sm or "if start > end { continue; }" not in sm or "for s in start..=end {" not in sm:
+        raise ExtractError(f"{p}: SlotMapData::new has an unknown shape")
+    bounded = "for s in start..=end { if s >= SLOT_NUM { break; }" in sm
+    if not bounded and "SLOT_NUM" in sm.split("for s in start..=end {")[1]:
+        raise ExtractError(f"{p}: SlotMapData::new: bound of the fill loop has an unknown shape")
+    out.append(f"/-- `SlotMapData::new` leaves its fill loop at `s >= SLOT_NUM` — {p} -/")
+    out.append(f"def slotMapBounded : Bool := {_b(bounded)}")
+    p = "src/common/proto.rs"
+    pt = _sq(fn_body(src(p), "parse_tagged_slot_range", p)).strip()
+    if pt != "SlotRange::from_strings(it).ok_or(CmdParseError::InvalidSlots)":
+        raise ExtractError(f"{p}: parse_tagged_slot_range validates something ({pt[:120]}…): a check placed there is not passed by the "
+                           f"compressed (serde) form of SETCLUSTER; every consumer of a range list must be bounded by itself")
     # --- get_hash_tag ---------------------------------------------------------------------------------------------
     p = "src/common/utils.rs"
     ht = _sq(fn_body(src(p), "get_hash_tag", p))
